@@ -27,6 +27,7 @@ def jobs(tier, seed):
     for ver in (OB, FO3, SK, SSE):
         J.append(dict(entry="h_parts", args=[ver, 3, 1, 2, 1], budget=120 if q else 600))
         J.append(dict(entry="h_parts", args=[ver, 3, 1, 2, 2], budget=120 if q else 600))
+        J.append(dict(entry="h_parts", args=[ver, 4, 1, 2, 1], budget=160 if q else 900))
         J.append(dict(entry="h_parts", args=[ver, 4, 2, 2, 2], budget=160 if q else 1800))
         if not q:
             J.append(dict(entry="h_parts", args=[ver, 4, 2, 2, 3], budget=1800))
